@@ -97,9 +97,9 @@ fn drive_sessions(c: &Ctx) -> Vec<Sess> {
             // one-column-per-type IPC files
             let typed = f.name.starts_with('t') && f.name[1..].chars().all(|c| c.is_ascii_digit());
             let primary = *api == files::apis(f.fmt)[0] || (f.fmt == "parquet" && *api == "metadata");
-            let budget = if c.thorough { 150 } else { 36 };
+            let budget = if c.thorough { 150 } else { 28 };
             let mut positions: Vec<usize> = vec![];
-            if n <= 300 || (c.thorough && !typed && primary) {
+            if (n <= 300 && primary) || (c.thorough && !typed && primary) {
                 positions.extend(0..n);
             } else if c.thorough && !typed {
                 positions.extend((ai % 4..n).step_by(4));
@@ -121,7 +121,7 @@ fn drive_sessions(c: &Ctx) -> Vec<Sess> {
                 }
             }
             // (c) truncations: every length of short files (thorough: of the main files for the primary API), a sample otherwise
-            let cuts: Vec<usize> = if n <= 300 || (c.thorough && !typed && primary) { (0..n).collect() } else { (0..(if c.thorough { 60 } else { 24 })).map(|_| rng.below(n)).collect() };
+            let cuts: Vec<usize> = if (n <= 300 && primary) || (c.thorough && !typed && primary) { (0..n).collect() } else { (0..(if c.thorough { 60 } else { 16 })).map(|_| rng.below(n)).collect() };
             for p in cuts {
                 push(Plan { src: "trunc", op: "trunc", sel: "abs", pos: p, ..Default::default() });
             }
